@@ -151,11 +151,12 @@ Proof. apply text_eqb_eq. reflexivity. Qed.
    (law assumed of the NFC oracle: it maps scalar values to scalar values) *)
 Theorem quote_ok_model c s :
   (forall x, all_scalar x = true -> all_scalar (o_nfc O x) = true) ->
+  (forall x, o_nfc O (o_nfc O x) = o_nfc O x) ->
   quote_ok (o_nfc O) (position_of c) s (quote_full T O c s) (unquote T (quote_full T O c s)) = true.
 Proof.
-  intro NFC. unfold quote_ok. destruct (all_scalar s) eqn:S0; [|reflexivity].
+  intros NFC IDEM. unfold quote_ok. destruct (all_scalar s) eqn:S0; [|reflexivity].
   pose proof (NFC s S0) as S.
   rewrite (quote_full_legal c s S). rewrite <- unquote_is_ref, (unquote_quote_full c s S).
-  rewrite text_eqb_refl. reflexivity.
+  rewrite IDEM, text_eqb_refl. reflexivity.
 Qed.
 End WithTables.
